@@ -10,7 +10,8 @@ from concurrent.futures import ThreadPoolExecutor
 
 VERIF = os.path.dirname(os.path.dirname(os.path.abspath(__file__)))
 COQDIR = os.path.join(VERIF, "coq")
-OUT = os.path.join(VERIF, "out")
+OUT = os.environ.get("VERIF_OUT", os.path.join(VERIF, "out"))            # scratch + replay files (seed runs against mutated copies set their own)
+EVID = os.environ.get("VERIF_EVIDENCE", os.path.join(VERIF, "evidence"))
 SRC = os.environ.get("MUDSLIDE_SRC", "/repo")
 NPROC = int(os.environ.get("VERIF_NPROC", "16"))
 
@@ -224,7 +225,7 @@ def check_theorems(pid):
             if fn.endswith(".v"):
                 hh.update(fn.encode()); hh.update(open(os.path.join(root, fn), "rb").read())
     key = hh.hexdigest()
-    cdir = os.path.join(OUT, "thmlog"); os.makedirs(cdir, exist_ok=True)
+    cdir = os.path.join(VERIF, "out", "thmlog"); os.makedirs(cdir, exist_ok=True)
     cpath = os.path.join(cdir, pid + ".json")
     rc, out = None, None
     if ok_b and os.path.exists(cpath) and os.path.exists(path[:-2] + ".vo"):
@@ -320,7 +321,7 @@ TRUSTED_COMMON = [
 
 def finish(res, thm, rule, assumptions, level="proof"):
     """Write evidence, print VIOLATION / KNOWN-FINDING lines, return exit code."""
-    os.makedirs(os.path.join(VERIF, "evidence"), exist_ok=True)
+    os.makedirs(EVID, exist_ok=True)
     os.makedirs(os.path.join(OUT, res.pid), exist_ok=True)
     vio = list(res.violations)
     if not thm["ok"]:
@@ -359,7 +360,7 @@ def finish(res, thm, rule, assumptions, level="proof"):
     cov.update(jsonable(res.extra))
     ev = dict(property_id=res.pid, tier=res.tier, seed=res.seed, level=level, coverage=cov,
               assumptions=assumptions, wall_s=round(time.time() - res.t0, 2), violations=len(vio))
-    with open(os.path.join(VERIF, "evidence", res.pid + ".json"), "w") as f:
+    with open(os.path.join(EVID, res.pid + ".json"), "w") as f:
         json.dump(ev, f, indent=1)
     print("%s %s: theorems %d/%d, %d cases (%d distinct non-trivial), %d violation(s), %.1fs"
           % (res.pid, res.tier, thm["discharged"], thm["obligations"], res.evaluations,
